@@ -145,3 +145,46 @@ pub fn serde_fields(v: &serde_json::Value, names: &[&str]) -> String {
     }
     names.iter().map(|n| one(&v[*n])).collect::<Vec<_>>().join(" ")
 }
+
+/// scripted generator: returns the given 64-bit words in order, then repeats the last one forever.
+/// `next_u32` takes the HIGH 32 bits of the next word (as rand's default for 64-bit generators does not — note:
+/// rand_core's `next_u32` for a u64 generator is implementation-defined; here it is `(next_u64() >> 32)`).
+pub struct Script {
+    pub words: Vec<u64>,
+    pub i: usize,
+}
+impl Script {
+    pub fn new(words: Vec<u64>) -> Self {
+        Script { words, i: 0 }
+    }
+    pub fn consumed(&self) -> usize {
+        self.i
+    }
+}
+impl rand::RngCore for Script {
+    fn next_u32(&mut self) -> u32 {
+        (self.next_u64() >> 32) as u32
+    }
+    fn next_u64(&mut self) -> u64 {
+        let w = if self.words.is_empty() { 0 } else { self.words[self.i.min(self.words.len() - 1)] };
+        self.i += 1;
+        w
+    }
+    fn fill_bytes(&mut self, dest: &mut [u8]) {
+        for c in dest.chunks_mut(8) {
+            let w = self.next_u64().to_le_bytes();
+            let n = c.len();
+            c.copy_from_slice(&w[..n]);
+        }
+    }
+    fn try_fill_bytes(&mut self, dest: &mut [u8]) -> Result<(), rand::Error> {
+        self.fill_bytes(dest);
+        Ok(())
+    }
+}
+impl Args {
+    /// a list of u64 generator words: `L<n> w1 … wn` (decimal)
+    pub fn words(&mut self) -> Vec<u64> {
+        self.list(|a| a.n())
+    }
+}
